@@ -81,6 +81,7 @@ func Routing(w *world.World, raws []json.RawMessage) ([]interface{}, error) {
 	upstream.ResetWithOnStats([]config.UpstreamConfig{{Name: "up", Servers: []config.UpstreamServerConfig{{Addr: w.UpAddr}}},
 		{Name: "updown", Servers: []config.UpstreamServerConfig{{Addr: fmt.Sprintf("http://127.0.0.1:%d", freePort())}}}}, nil)
 	defer upstream.ResetWithOnStats([]config.UpstreamConfig{{Name: "up", Servers: []config.UpstreamServerConfig{{Addr: w.UpAddr}}}}, nil)
+	cfgSrv := []config.ServerConfig{{Addr: ":7101", Cache: "rt", Locations: []string{"n1", "n2"}}}
 	var out []interface{}
 	for ci, raw := range raws {
 		var c rtCase
@@ -224,6 +225,20 @@ func Routing(w *world.World, raws []json.RawMessage) ([]interface{}, error) {
 			r := w.DoCase("", hname, "POST", q.Host, q.URI, nil, q)
 			loc, _ := strconv.Atoi(q.seen)
 			e2e = append(e2e, map[string]interface{}{"q": q, "loc": loc, "status": r.Status, "contacts": r.Contacts})
+			if len(q.Names) == 2 && q.Names[0] == "n1" && q.Names[1] == "n2" {
+				// a server defined by a configuration that never changes (locations n1, n2): only the location table is
+				// reloaded from case to case, the server section is applied again unchanged as every reload does
+				if !handlers["rt:cfg"] {
+					w.AddHandlersFromConfig(cfgSrv, map[string]string{":7101": "rt:cfg"})
+					handlers["rt:cfg"] = true
+				} else {
+					server.Reset(cfgSrv)
+				}
+				q.seen = ""
+				r := w.DoCase("", "rt:cfg", "POST", q.Host, q.URI, nil, q)
+				loc, _ := strconv.Atoi(q.seen)
+				e2e = append(e2e, map[string]interface{}{"q": q, "loc": loc, "status": r.Status, "contacts": r.Contacts})
+			}
 		}
 		w.TakeTrace()
 		out = append(out, map[string]interface{}{"case": raw, "answers": answers, "e2e": e2e})
